@@ -37,7 +37,7 @@ func init() {
 		Batches: func(seed int64, tier core.Tier) []core.Batch {
 			var bs []core.Batch
 			for s := 0; s < tierPick(tier, 4, 12); s++ {
-				bs = append(bs, core.Batch{Name: fmt.Sprintf("scripted-%d", s), TimeoutS: 900, Params: core.Params(c19Params{Kind: "scripted", Shard: s, N: tierPick(tier, 48, 250)})})
+				bs = append(bs, core.Batch{Name: fmt.Sprintf("scripted-%d", s), TimeoutS: 900, Params: core.Params(c19Params{Kind: "scripted", Shard: s, N: tierPick(tier, 48, 600)})})
 			}
 			bs = append(bs, core.Batch{Name: "faults", TimeoutS: 300, Params: core.Params(c19Params{Kind: "faults", N: tierPick(tier, 60, 600)})})
 			bs = append(bs, core.Batch{Name: "nats", TimeoutS: 600, Params: core.Params(c19Params{Kind: "nats", N: tierPick(tier, 20, 200)})})
